@@ -54,6 +54,7 @@ type winMon struct {
 	n, s      int
 	fresh     int // fresh DATA packets put on the wire so far
 	acked     int // packets acknowledged by ACK/NACKs delivered so far
+	accepted  int // messages whose Send returned nil
 	maxOut    int
 	fullCount int
 	conn      func() *gbn.GoBackNConn
@@ -98,6 +99,22 @@ func (w *winMon) onSend(idx int, p sim.Pkt) {
 	}
 }
 
+// onAccepted: a Send of this sender returned nil, i.e. the send loop took the
+// message because its window had room. Every accepted message is at least one
+// queue entry, and an entry leaves the queue only through an ACK/NACK that was
+// delivered before: messages accepted minus packets covered by delivered
+// ACK/NACKs can never exceed N (the monitor's count of covered packets can only
+// run ahead of the sender's).
+func (w *winMon) onAccepted() {
+	w.mu.Lock()
+	w.accepted++
+	out := w.accepted - w.acked
+	w.mu.Unlock()
+	if out > w.n {
+		w.viol("send-accepted-beyond-window", fmt.Sprintf("%s: Send accepted message #%d although %d accepted messages are not covered by any ACK/NACK delivered so far; N=%d", w.name, w.accepted-1, out, w.n))
+	}
+}
+
 func (w *winMon) onDeliver(idx int, p sim.Pkt) {
 	if !p.Valid || (p.Type != sim.TAck && p.Type != sim.TNack) {
 		return
@@ -120,6 +137,18 @@ func (w *winMon) onDeliver(idx int, p sim.Pkt) {
 
 func runC09Window(c *mon.Case) {
 	sc := eng.RandScen(c.Rng, c.Tier, c.Idx)
+	if c.Idx%8 == 3 {
+		// one transport write fails with an error (it puts nothing on the
+		// wire): whatever the connection does about it, the window bound
+		// holds for what does reach the wire
+		k := 1 + c.Rng.Intn(4*(int(sc.Conf.N)+1))
+		if c.Rng.Intn(2) == 0 {
+			sc.WriteErrC2S = k
+		} else {
+			sc.WriteErrS2C = k
+		}
+		c.Shard.Count("scenarios_with_a_transport_write_error", 1)
+	}
 	var cm, sm *winMon
 	var pair *eng.Pair
 	var mu sync.Mutex
@@ -136,6 +165,13 @@ func runC09Window(c *mon.Case) {
 	}
 	hooks := eng.Hooks{
 		OnLeak: leakHookInconc(c, sc),
+		OnAccepted: func(dir byte, i int) {
+			if dir == 'a' {
+				cm.onAccepted()
+			} else {
+				sm.onAccepted()
+			}
+		},
 		BeforeConnect: func(p *eng.Pair) {
 			pair = p
 			cm = mk("client", p.Client)
